@@ -22,7 +22,10 @@ except the per-pair scores of the pairs it made.
 
 Oracle (does not use the model): the property's counting identities, exactly-once accounting of every
 critical ground truth, TP soundness recomputed from the real scores, critical-region membership of
-every counted object recomputed in the ego frame, and stability of earlier frames of the history.
+every counted object recomputed in the ego frame, and stability of earlier frames of the history.  The
+identities are evaluated whenever the ground truths of the frame are pairwise distinct (exact comparison of the
+case's coordinates), which includes near-duplicate 'twin' ground truths a fraction of a metre apart in scenes
+~1e5 m from the map origin (`_gen_twin_case`, corpus): distinct objects stay distinct at any magnitude.
 """
 from __future__ import annotations
 
@@ -64,8 +67,10 @@ RULE = (
     "filter boundaries on a 1/8 grid; ego pose yaw+translation; BASE_LINK and MAP rendering; manager filter and per-frame "
     "critical filter as x/y box or distance ring with per-label bounds (bounds on the object grid in BASE_LINK so exact "
     "ties occur, off-grid in MAP); pass/fail thresholds per label, absent, or for all labels incl. FP; 3 label policies; "
-    "detection and FP validation. Non-trivial = at least one estimate or ground truth reaches the matcher; distinct = "
-    "distinct canonical case JSON"
+    "detection and FP validation; plus a family of 'twin' ground truths (same label/orientation/height/time, planar offset "
+    "1/1024..1 m, mostly 0.2..1 m; one matched / both unmatched / both matched / matched-but-failing; ordinary and FP-labelled) "
+    "placed clear of the bounds inside both regions, in BASE_LINK and in MAP scenes with ego translations up to 1.2e5 m on both axes. "
+    "Non-trivial = at least one estimate or ground truth reaches the matcher; distinct = distinct canonical case JSON"
 )
 TRUSTED = [
     "matcher pairing and plane-distance scores are taken from the real code (C01/C02/C06 cover them); the model starts at the matcher's output "
@@ -79,7 +84,9 @@ TRUSTED = [
 ]
 ASSUMPTIONS = [
     "ground truths of a frame are a set: no two equal under DynamicObject.__eq__ (time, label, position, orientation); "
-    "duplicates are generated on purpose with low probability, compared with the model, and excluded from the conservation oracle",
+    "duplicates are generated on purpose with low probability, compared with the model, and excluded from the conservation oracle; "
+    "ground truths that differ in position by any representable amount (the twin family: millimetres to 1 m, coordinates up to 1e5 m) "
+    "are distinct and inside the domain",
     "3-D evaluation (PLANEDISTANCE pass/fail score); 2-D ROI-less branch not covered",
     "critical filter options target_uuids / ignore_attributes left None; ground-truth confidence is 1.0 and confidence thresholds < 1",
     "detection task: critical target labels cover the manager's target labels (otherwise Map() raises KeyError before pass/fail runs)",
@@ -794,6 +801,7 @@ def branches(case, out) -> List[str]:
         for g in fr["gts"]:
             if g["label"] == "FP" and g["id"] in o["gts"] and outside_all_regions(g, fr["crit"]):
                 br.append("fp-labelled-gt-beyond-every-bound-counted")
+        br.extend(_twin_branches(case, fr, o, ff))
         if any(not ff["mgr_g"][g["id"]] for g in fr["gts"]) or any(not ff["mgr_e"][e["id"]] for e in fr["ests"]):
             br.append("manager-filter-drops")
         if any(ff["mgr_g"][g["id"]] and not ff["crit_g"][g["id"]] for g in fr["gts"]):
@@ -968,6 +976,145 @@ def _gen_case(rng, pool, tier):
     return case
 
 
+# ---- 'twin' ground truths: DISTINCT objects that differ only by a small planar offset -------------------------
+# Two ground truths with the same label, orientation, height and time stamp standing 1/1024 .. 1 m apart are two
+# objects (they are not equal under DynamicObject.__eq__, whatever the magnitude of their coordinates), so they are
+# inside the property's domain and each must be accounted exactly once.  The families below place such pairs inside
+# the manager's and the critical region, in BASE_LINK and in MAP scenes whose ego pose is up to ~1.2e5 m from the map
+# origin (real maps), with: one twin matched by an estimate and the other not, both unmatched, both matched, and the
+# same with FP-labelled twins (TN / TN re-wrap / matched FP).  Nothing in the oracle is specific to them: the
+# ordinary counting identities are evaluated (frame_facts marks them `dup` only when they are exactly equal).
+
+TWIN_OFFSETS = [0.2, 0.25, 0.3, 0.375, 0.4, 0.5, 0.5, 0.6, 0.625, 0.7, 0.75, 0.8, 0.875, 0.9, 1.0]
+TWIN_SMALL = [1.0 / 1024, 1.0 / 256, 1.0 / 64, 1.0 / 16, 0.125]  # millimetres apart is still apart
+TWIN_VARIANTS = ["one-matched", "one-matched", "one-matched", "both-unmatched", "both-matched", "matched-fails"]
+FAR = 5e4  # |map coordinate| from which a relative tolerance of 1e-5 reaches 0.5 m
+
+
+def _twin_ego(rng, frame):
+    """ego pose of a twin frame: in MAP scenes mostly far from the origin on BOTH axes"""
+    u = rng.random()
+    if frame == "map" and u < 0.65:
+        mag = lambda: rng.choice([1, -1]) * _grid(rng, 50000, 120000)  # noqa: E731
+        return {"yaw": _grid(rng, -3, 3, 64) if rng.random() < 0.8 else 0.0, "tx": mag(), "ty": mag()}
+    if u < 0.8:
+        return {"yaw": _grid(rng, -3, 3, 64), "tx": _grid(rng, -2048, 2048), "ty": _grid(rng, -2048, 2048)}
+    if u < 0.9:
+        return {"yaw": _grid(rng, -3, 3, 64), "tx": rng.choice([1, -1]) * _grid(rng, 50000, 120000), "ty": _grid(rng, -64, 64)}
+    return {"yaw": 0.0, "tx": 0.0, "ty": 0.0}
+
+
+def _inside(o, is_gt, case, crit) -> bool:
+    """inside the manager's and the critical region with a clear margin (no decision next to a bound)"""
+    M = Margins()
+    ok = is_target(o, is_gt, dict(case["mgr"]), False, M) and is_target(o, is_gt, crit, False, M)
+    return ok and not M.near
+
+
+def _add_twins(rng, case, fr, variant: str, fp_label: bool) -> bool:
+    """inject one pair of twin ground truths (and the estimates of `variant`) into frame `fr`"""
+    crit, mgr = fr["crit"], case["mgr"]
+    common = [l for l in mgr["labels"] if l in crit["labels"] and l != "unknown"]
+    if fp_label:
+        label = "FP"
+    elif common:
+        label = rng.choice(common)
+    else:
+        return False
+    off = rng.choice(TWIN_SMALL) if rng.random() < 0.12 else rng.choice(TWIN_OFFSETS)
+    th = rng.choice([0.0, 0.0, math.pi / 2]) if rng.random() < 0.5 else _grid(rng, -3, 3, 64)
+    dx, dy = (off, 0.0) if th == 0.0 else (0.0, off) if th == math.pi / 2 else (off * math.cos(th), off * math.sin(th))
+    gid = max([g["id"] for g in fr["gts"]] + [100]) + 1
+    eid = max([e["id"] for e in fr["ests"]] + [0]) + 1
+    for _ in range(40):
+        gx, gy = _place(rng, crit if rng.random() < 0.8 else mgr)
+        a = {"id": gid, "x": gx, "y": gy, "z": rng.choice([0.0, 0.0, 0.5, 1.0]), "yaw": _grid(rng, -3, 3, 64), "label": label,
+             "pts": rng.choice([10, 20, 100]), "w": _grid(rng, 0.5, 2.5), "l": _grid(rng, 0.5, 5), "h": _grid(rng, 1, 2)}
+        b = dict(a, id=gid + 1, x=gx + dx, y=gy + dy)
+        if rng.random() < 0.3:  # size is no part of an object's identity either way
+            b["w"], b["l"] = _grid(rng, 0.5, 2.5), _grid(rng, 0.5, 5)
+        if crit.get("min_points") is not None or mgr.get("min_points") is not None:
+            a["pts"] = b["pts"] = 100
+        if _inside(a, True, case, crit) and _inside(b, True, case, crit):
+            break
+    else:
+        return False
+
+    def est(g, i, slip):
+        lab = g["label"] if g["label"] != "FP" else rng.choice(common or EST_LABELS)
+        # next to `g` on the side away from its twin, so the matcher's nearest ground truth is `g`
+        return {"id": i, "x": g["x"] - slip * (dx / off) * (1 if g is a else -1), "y": g["y"] - slip * (dy / off) * (1 if g is a else -1),
+                "z": g["z"], "yaw": g["yaw"], "label": lab, "w": g["w"], "l": g["l"], "h": g["h"],
+                "score": rng.choice([0.75, 0.875, 1.0])}
+
+    first, second = (a, b) if rng.random() < 0.5 else (b, a)  # which twin the estimate belongs to, in either list order
+    new = []
+    if variant in ("one-matched", "both-matched"):
+        new.append(est(first, eid, rng.choice([0.0, 1.0 / 64, 1.0 / 32, 1.0 / 16])))
+    if variant == "both-matched":
+        new.append(est(second, eid + 1, rng.choice([0.0, 1.0 / 64, 1.0 / 32])))
+    if variant == "matched-fails":  # matched, but too far to pass (FP + FN) or with another label
+        e = est(first, eid, rng.choice([0.0, 1.0 / 32]))
+        if rng.random() < 0.5 and label != "FP":
+            e["label"] = rng.choice([l for l in EST_LABELS if l != label])
+        else:
+            e["x"] -= 4.0 * (dx / off) * (1 if first is a else -1)
+            e["y"] -= 4.0 * (dy / off) * (1 if first is a else -1)
+        new.append(e)
+    # estimates of the base frame standing closer to a twin than intended would only change the variant observed
+    pair = [a, b] if rng.random() < 0.5 else [b, a]
+    at = rng.choice([0, len(fr["gts"])])  # before or after the other ground truths; twins adjacent or not
+    fr["gts"][at:at] = pair[:1]
+    at2 = rng.choice([0, len(fr["gts"])])
+    fr["gts"][at2:at2] = pair[1:]
+    fr["ests"].extend(new)
+    fr.setdefault("twins", []).append([a["id"], b["id"]])
+    return True
+
+
+def _gen_twin_case(rng, pool, tier):
+    task, frame, policy, mgr = rng.choice(pool)
+    case = {"kind": "history", "task": task, "frame": frame, "policy": policy, "mgr": mgr, "frames": []}
+    for k in range(rng.choice([1, 1, 1, 2, 3])):
+        fr = _gen_frame(rng, case, k, tier)
+        # a light base frame: the twins are the subject, the rest is context
+        fr["gts"], fr["ests"] = fr["gts"][: rng.choice([0, 0, 1, 2, 4])], fr["ests"][: rng.choice([0, 0, 1, 2])]
+        fr["ego"] = _twin_ego(rng, frame)
+        if fr["pf"]["thr"] is not None and fr["pf"]["labels"] is not None and rng.random() < 0.7:
+            fr["pf"]["thr"] = [max(float(t), 0.5) for t in fr["pf"]["thr"]]
+        for _ in range(rng.choice([1, 1, 2])):
+            fp_label = rng.random() < (0.6 if task == "fp_validation" else 0.25)
+            _add_twins(rng, case, fr, rng.choice(TWIN_VARIANTS), fp_label)
+        case["frames"].append(fr)
+    return case
+
+
+def _twin_branches(case, fr, o, ff) -> List[str]:
+    """histogram keys of the twin pairs of a frame, from what the real code reported"""
+    br = []
+    e = fr["ego"]
+    far = case["frame"] == "map" and abs(float(e["tx"])) >= FAR and abs(float(e["ty"])) >= FAR
+    where = "map-far" if far else case["frame"]
+    gl = {g["id"]: g for g in fr["gts"]}
+    matched = {p[1] for p in o["results"] if p[1] is not None}
+    for ia, ib in fr.get("twins", []):
+        if ia not in gl or ib not in gl:
+            continue  # shrunk away
+        if ia not in o["gts"] or ib not in o["gts"]:
+            br.append("twin:not-both-critical")
+            continue
+        n = (ia in matched) + (ib in matched)
+        kind = "fp-label" if gl[ia]["label"] == "FP" else "ordinary"
+        br.append(f"twin:{kind}:{['both-unmatched', 'one-matched', 'both-matched'][n]}:{where}")
+        d = math.hypot(float(gl[ia]["x"]) - float(gl[ib]["x"]), float(gl[ia]["y"]) - float(gl[ib]["y"]))
+        br.append("twin:offset:" + ("<0.01" if d < 0.01 else "<0.2" if d < 0.19 else "0.2-0.5" if d <= 0.5 else "0.5-1.0"))
+        if ff["near"]:
+            br.append("twin:frame-skipped-near-boundary")
+        elif not ff["dup"]:
+            br.append("twin:identities-evaluated:" + where)
+    return br
+
+
 def generate(rng, tier) -> list:
     n_pool = 36 if tier == "quick" else 150
     pool = []
@@ -977,6 +1124,9 @@ def generate(rng, tier) -> list:
         pool.append((task, frame, POLICIES[i % 3] if rng.random() < 0.5 else rng.choice(POLICIES), _gen_mgr(rng, frame)))
     n = int(os.environ.get("C03_CASES", 0)) or (700 if tier == "quick" else 5000)
     cases = [_gen_case(rng, pool, tier) for _ in range(n)]
+    # twin ground truths (drawn after the base cases, which therefore stay what they were for a given seed)
+    n_twin = int(os.environ.get("C03_TWIN_CASES", 0)) or (220 if tier == "quick" else 1500)
+    cases += [_gen_twin_case(rng, pool, tier) for _ in range(n_twin)]
     for k, c in enumerate(cases):  # a third of the cases also run the composed model end to end (no rng consumed)
         if k % 3 == 0:
             c["pipe"] = True
@@ -1039,6 +1189,38 @@ def corpus() -> list:
            "ests": [], "crit": crit30, "pf": pf2}
     for task in ("detection", "fp_validation"):
         cs.append({"kind": "history", "task": task, "frame": "map", "policy": "default", "mgr": mgr, "frames": [frx]})
+    # twin ground truths: distinct objects 0.25 .. 0.9 m apart with the same label, heading, height and time stamp; the
+    # detector finds one of them, the other must be FN (ordinary) / TN (FP-labelled).  Ego-frame scene, the same scene in a
+    # map whose origin is ~1e5 m away on both axes (with and without ego yaw), and ~1e5 m away on one axis only.
+    def ped(i, x, y, label="pedestrian", **kw):
+        return _obj(i, x, y, label, yaw=0.25, w=0.625, l=0.625, h=1.75, z=1.0, **kw)
+
+    egos = [{"yaw": 0.0, "tx": 0.0, "ty": 0.0}, {"yaw": 0.5, "tx": 88990.0, "ty": 42000.0}, {"yaw": 0.0, "tx": -101250.5, "ty": 97000.25},
+            {"yaw": -2.0, "tx": 120000.0, "ty": -64000.0}, {"yaw": 1.0, "tx": 99000.0, "ty": 12.0}]
+    pf_all = {"labels": None, "thr": {"default": 1.0, "FP": 1.0, "car": 1.0}}
+    scenes = []
+    # one matched, one not (either list order, along x / along y / diagonal), a car as ordinary context
+    scenes.append(([ped(101, 10.0, 3.0), ped(102, 10.4, 3.0), _obj(103, -12.0, 6.0)], [ped(1, 9.96875, 3.0), _obj(2, -12.0, 6.125)], pf2))
+    scenes.append(([ped(101, 10.0, 3.9), ped(102, 10.0, 3.0), _obj(103, -12.0, 6.0)], [ped(1, 10.0, 2.96875)], pf2))
+    scenes.append(([ped(101, -7.25, -4.0), ped(102, -7.0, -3.75)], [ped(1, -7.28125, -4.0)], pf_all))
+    # a row of three, the middle one detected; both unmatched; matched with the wrong label (FP + FN, the twin FN as well)
+    scenes.append(([ped(101, 5.0, 0.0), ped(102, 5.5, 0.0), ped(103, 6.0, 0.0)], [ped(1, 5.5, 0.03125)], pf2))
+    scenes.append(([ped(101, 10.0, 3.0), ped(102, 10.3, 3.0)], [_obj(1, -20.0, 0.0)], pf2))
+    scenes.append(([ped(101, 10.0, 3.0), ped(102, 10.6, 3.0)], [ped(1, 9.96875, 3.0, "bicycle")], pf2))
+    # FP-labelled twins: TN re-wrap + TN (no threshold for FP), matched FP + TN (threshold for every label), both TN
+    scenes.append(([ped(101, 10.0, 3.0, "FP"), ped(102, 10.4, 3.0, "FP"), _obj(103, -12.0, 6.0)], [ped(1, 9.96875, 3.0)], pf2))
+    scenes.append(([ped(101, 10.7, 3.0, "FP"), ped(102, 10.0, 3.0, "FP")], [ped(1, 9.96875, 3.0)], pf_all))
+    scenes.append(([ped(101, 10.0, 3.0, "FP"), ped(102, 10.0, 3.25, "FP")], [], pf2))
+    # two millimetres apart (still two objects, also next to 1e5): one matched exactly, the other not
+    scenes.append(([ped(101, 10.0, 3.0), ped(102, 10.001953125, 3.0)], [ped(1, 10.0, 3.0)], pf2))
+    for n, (gts, ests, pf) in enumerate(scenes):
+        for j, ego in enumerate(egos):
+            frame = "base_link" if j == 0 else "map"
+            tasks = ("detection", "fp_validation") if (gts[0]["label"] == "FP" and j < 2) else ("detection",)
+            for task in tasks:
+                cs.append({"kind": "history", "task": task, "frame": frame, "policy": POLICIES[(n + j) % 3], "mgr": mgr,
+                           "frames": [{"time": 100000, "ego": ego, "gts": copy.deepcopy(gts), "ests": copy.deepcopy(ests),
+                                       "crit": crit30, "pf": pf, "twins": [[101, 102]] + ([[102, 103]] if len(gts) == 3 and gts[2]["label"] == gts[1]["label"] else [])}]})
     for c in cs:
         c["pipe"] = True
     return cs
